@@ -1114,7 +1114,7 @@ const POS_LIQ: [u128; 4] = [0, 1, 1_000_000_000, 1 << 100];
 const N_CKPT: usize = 3;
 const N_OWED: usize = 2;
 const N_TICK_STATES: usize = 5;
-const N_REWARD_CFG: usize = 8;
+const N_REWARD_CFG: usize = 9;
 /// index of the reward configuration no program execution can produce (uninitialised slot with emissions)
 const REWARD_CFG_UNREACHABLE: usize = 6;
 
@@ -1143,6 +1143,9 @@ fn reward_cfg(i: usize) -> [WhirlpoolRewardInfo; 3] {
         // the interval of a LOWER index is dropped (elapsed time x rate beyond 128 bits for any interval of two seconds or more)
         // while higher indexes emit at ordinary rates: their growth must advance all the same
         7 => [init(0, U128M, 3), init(1, 1 << 64, 7), init(2, 5 << 64, U128M - 1)],
+        // a day at 2^111 per second: the bit lengths of the two factors add up to 129 and the product (1.3 x 2^127) still fits
+        // 128 bits — the interval must be credited, an over-cautious overflow test drops it
+        8 => [init(0, 1 << 111, 5), init(1, 3 << 63, 9), un(2, 0, 0)],
         _ => [un(0, 1 << 64, 7), init(1, 1 << 64, 0), un(2, 5, 0)],
     }
 }
@@ -1619,7 +1622,7 @@ fn selection(quick: bool) -> Sel {
             owed: vec![0, 1],
             pool_liq: vec![0, 2, 3],
             fee_growth: vec![1, 3],
-            rewards: vec![0, 2, 3, 5, 6, 7],
+            rewards: vec![0, 2, 3, 5, 6, 7, 8],
             times: vec![0, 2, 3],
         }
     } else {
